@@ -70,3 +70,5 @@ def run(ctx):
     # text as supplied with an encoded component
     flow.f_self(ctx, K, methods={"with_user", "with_password", "with_path", "with_name", "with_suffix", "with_fragment", "with_query",
                                  "__truediv__", "joinpath", "_make_child"})
+    from ..rules.immut import im9
+    im9(ctx)        # a decoded view is a function of its raw component only: the shared unquoter instances keep no state between calls
